@@ -73,10 +73,14 @@ def findMatchingNodes (g other : String) (d : DStore) : DR :=
       (.ok (.vals ((mine.filter (fun x => theirs.contains x)).eraseDups)), d)
   | (.ok _, _) => (.error .runtime, d)
 
+/-- `storage.del_all_graphs`: `self.graphs.clear()`; the per-graph id counters (`graph_node_ids`) stay -/
+def delAllGraphs (d : DStore) : DR := (.ok .unit, ⟨[], d.ids⟩)
+
 def step (op : Op) (d : DStore) : DR :=
   match op with
-  | .addGraph g ig => addGraph g ig d
-  | .addGraphDirect g ig => addGraphDirect g ig d
+  | .addGraph g ig => addGraph g ig.close d
+  | .addGraphDirect g ig => addGraphDirect g ig.close d
+  | .delAllGraphs => delAllGraphs d
   | .deleteGraph g => delGraph g d
   | .clone g g2 => cloneGraph g g2 d
   | .mergeNodes .. => (.error .runtime, d)          -- "Not implementable with this backend."
